@@ -45,7 +45,7 @@ class AliasMethod(Sampling):
     def _draw_with_u(self, uniform: float):
         """ALIAS sampling with pre-generated uniform variable"""
         ku = self.K * uniform
-        x = np.uint(ku)
+        x = int(ku)
         v = ku - x
         if v < self.q[x]:
             return x
@@ -56,7 +56,7 @@ def create_alias(probabilities):
     """Initialisation of the ALIAS method"""
     dim = len(probabilities)
     q = probabilities * dim
-    j = np.zeros(shape=dim, dtype=np.uint)
+    j = np.zeros(shape=dim, dtype=int)
 
     # sort the scaled probabilities into >1 and <=1
     smaller = deque()
